@@ -8,7 +8,6 @@ G = importlib.util.module_from_spec(_s)
 _s.loader.exec_module(G)
 
 META = {
-    "disabled": True,
     "level": "model_checking",
     "text": "The GJKR model of C01 tracks, per honest member, which senders' shares are summed into its private key share, which "
             "terms (own point, stored valid points, reconstructed keys with their provider sets) are summed into the group "
